@@ -350,3 +350,723 @@ pub fn opname(op: &Op) -> &'static str {
         _ => "other",
     }
 }
+
+/// like `opname`, but also names the time / sweep operations
+pub fn opname2(op: &Op) -> &'static str {
+    match op {
+        Op::Advance(_) => "advance",
+        Op::Rewind(_) => "rewind",
+        Op::Tick => "tick",
+        Op::AwaitIdle(RoleName::Sweeper) => "sweep",
+        Op::AwaitIdle(_) => "await-idle",
+        Op::Rotate => "rotate",
+        other => opname(other),
+    }
+}
+
+// ------------------------------------------------------------------------------------------------
+// Owner oracle: with exactly one writer per key, issuing its operations on that key one after
+// another (each acknowledged before the next begins), the state of the key between two owner
+// operations is determined by the owner's history alone. Reads by *any* thread that fall entirely
+// into such a gap are judged against it (serves C03, C09 and the safety half of C10).
+
+#[derive(Clone, Debug, PartialEq)]
+enum OwnerState {
+    Absent,
+    /// value, and the interval [emin, emax] the expiry lies in (None = no TTL)
+    Present { val: u64, exp: Option<(Dur, Dur)> },
+    Unknown,
+}
+
+fn add(a: Dur, b: Dur) -> Dur {
+    a.to_std().checked_add(b.to_std()).map(Dur::from_std).unwrap_or(Dur { s: u64::MAX / 4, n: 0 })
+}
+
+pub struct OwnerFinding {
+    pub class: &'static str,
+    pub msg: String,
+    pub event: u64,
+    /// which background activity, if any, raced with the owner's last operation on the key
+    pub race: &'static str,
+}
+
+/// Did a sweep that expired the entry with this id overlap the given call interval?
+fn sweep_overlapped(hx: &Hx, id: u64, inv: u64, ret: u64) -> bool {
+    if id == 0 {
+        return false;
+    }
+    let mut begin: Option<u64> = None;
+    let mut hit = false;
+    for (s, _r, ev) in &hx.hooks {
+        match ev {
+            Hook::SweepBegin { .. } => {
+                begin = Some(*s);
+                hit = false;
+            }
+            Hook::SweepExpired { id: x, .. } if *x == id => hit = true,
+            Hook::SweepDone => {
+                if let Some(b) = begin {
+                    if hit && b < ret && *s > inv {
+                        return true;
+                    }
+                }
+                begin = None;
+            }
+            _ => {}
+        }
+    }
+    false
+}
+
+/// `fits` = the scenario's demanded weight provably fits (nothing is ever evicted), so "must be
+/// served" obligations may be asserted.
+pub fn owner_oracle(sc: &Scenario, hx: &Hx, fits: bool) -> (Vec<OwnerFinding>, bool, bool) {
+    let mut out = vec![];
+    let mut judged_after_reput = false;
+    let mut judged_expiry_window = false;
+    if hx.first_shutdown_inv().is_some() {
+        return (out, false, false);
+    }
+    for k in 0..sc.cfg.keys {
+        let mut ws: Vec<&WriteRec> = hx.writes_of_key(k).collect();
+        if ws.is_empty() {
+            continue;
+        }
+        let owner = ws[0].t;
+        if ws.iter().any(|w| w.t != owner) {
+            continue; // not an owned key
+        }
+        ws.sort_by_key(|w| w.inv);
+        // gaps: (from_seq, to_seq, state)
+        let mut state = OwnerState::Absent;
+        let mut gaps: Vec<(u64, u64, OwnerState, bool, &'static str)> = vec![];
+        let mut cur_id = 0u64;
+        let mut race: &'static str = "race=none";
+        let mut prev_done = 0u64;
+        let mut reput = false;
+        let mut ever_removed = false;
+        for w in &ws {
+            gaps.push((prev_done, w.inv, state.clone(), reput, race));
+            race = "race=none";
+            let done = match w.done_seq() {
+                Some(d) => d,
+                None => {
+                    state = OwnerState::Unknown;
+                    prev_done = u64::MAX;
+                    break;
+                }
+            };
+            let st = w.status().unwrap_or(St::Pending);
+            let put_like = w.is_put() || (w.is_upsert() && !w.upsert_in_place());
+            let (val, ttl, remove_ttl) = match &w.op {
+                Op::Put { val, ttl, .. } => (Some(*val), *ttl, false),
+                Op::Upsert { val, ttl, remove_ttl, .. } => (*val, *ttl, *remove_ttl),
+                _ => (None, None, false),
+            };
+            state = if w.is_delete() {
+                ever_removed = true;
+                match st {
+                    St::Accepted | St::RejNoKey => OwnerState::Absent,
+                    _ => OwnerState::Unknown,
+                }
+            } else if put_like {
+                match st {
+                    St::Accepted => {
+                        if ever_removed {
+                            reput = true;
+                        }
+                        cur_id = w.key_id;
+                        // the expiry is computed on the worker while it applies the command
+                        let lo = w.apply_begin.map(|s| hx.clock_lo(s)).unwrap_or(w.clock_inv);
+                        let hi = w.apply_end.map(|e| hx.clock_hi(e.0)).unwrap_or_else(|| hx.clock_hi(done));
+                        let exp = ttl.map(|d| (add(lo, d), add(hi, d)));
+                        OwnerState::Present { val: val.unwrap_or(0), exp }
+                    }
+                    St::RejExists => state.clone(),
+                    _ => OwnerState::Unknown,
+                }
+            } else {
+                // in-place upsert: did the sweeper expire this very entry while the call was running?
+                if sweep_overlapped(hx, cur_id, w.inv, w.ret.unwrap_or(u64::MAX)) {
+                    race = "race=upsert-overlapped-sweep-of-same-entry";
+                }
+                match (&state, st) {
+                    (OwnerState::Present { val: old, exp }, St::Accepted) => {
+                        let nexp = if remove_ttl {
+                            None
+                        } else if let Some(d) = ttl {
+                            Some((add(w.clock_inv, d), add(w.clock_ret, d)))
+                        } else {
+                            *exp
+                        };
+                        OwnerState::Present { val: val.unwrap_or(*old), exp: nexp }
+                    }
+                    _ => OwnerState::Unknown,
+                }
+            };
+            if let OwnerState::Present { exp: Some(_), .. } = state {
+                ever_removed = true; // a TTL key may be swept and come back: counts as a re-put history
+            }
+            prev_done = done;
+        }
+        if prev_done != u64::MAX {
+            gaps.push((prev_done, u64::MAX, state.clone(), reput, race));
+        }
+        for r in &hx.reads {
+            for (pos, rk) in r.keys.iter().enumerate() {
+                if *rk != k {
+                    continue;
+                }
+                let got = r.vals.get(pos).copied().flatten();
+                let gap = gaps.iter().find(|g| r.inv > g.0 && r.ret < g.1);
+                let (state, was_reput, race) = match gap {
+                    Some(g) => (&g.2, g.3, g.4),
+                    None => continue,
+                };
+                match state {
+                    OwnerState::Unknown => {}
+                    OwnerState::Absent => {
+                        if let Some(v) = got {
+                            out.push(OwnerFinding {
+                                class: "served-absent-key",
+                                msg: format!("T{}#{} {:?}(k{}) returned {:x} although its owner had deleted it / never put it", r.t, r.i, r.kind, k, v),
+                                event: r.ret,
+                                race,
+                            });
+                        }
+                    }
+                    OwnerState::Present { val, exp } => {
+                        if was_reput {
+                            judged_after_reput = true;
+                        }
+                        if let Some(v) = got {
+                            if v != *val {
+                                out.push(OwnerFinding {
+                                    class: "altered-value",
+                                    msg: format!("T{}#{} {:?}(k{}) returned {:x}, the owner's latest acknowledged value is {:x}", r.t, r.i, r.kind, k, v, val),
+                                    event: r.ret,
+                                    race,
+                                });
+                                continue;
+                            }
+                        }
+                        match exp {
+                            None => {
+                                if got.is_none() && fits {
+                                    out.push(OwnerFinding {
+                                        class: "lost-live-key",
+                                        msg: format!("T{}#{} {:?}(k{}) returned None; the owner's accepted value {:x} has no TTL, was not deleted and nothing can be evicted", r.t, r.i, r.kind, k, val),
+                                        event: r.ret,
+                                        race,
+                                    });
+                                }
+                            }
+                            Some((emin, emax)) => {
+                                judged_expiry_window = true;
+                                if r.clock_inv > *emax && got.is_some() {
+                                    out.push(OwnerFinding {
+                                        class: "served-after-expiry",
+                                        msg: format!("T{}#{} {:?}(k{}) served {:x} at clock {}.{:09} although its expiry is at most {}.{:09}", r.t, r.i, r.kind, k, val, r.clock_inv.s, r.clock_inv.n, emax.s, emax.n),
+                                        event: r.ret,
+                                        race,
+                                    });
+                                }
+                                if r.clock_ret <= *emin && got.is_none() && fits {
+                                    out.push(OwnerFinding {
+                                        class: "hidden-before-expiry",
+                                        msg: format!("T{}#{} {:?}(k{}) returned None at clock {}.{:09} although {:x} expires no earlier than {}.{:09}", r.t, r.i, r.kind, k, r.clock_ret.s, r.clock_ret.n, val, emin.s, emin.n),
+                                        event: r.ret,
+                                        race,
+                                    });
+                                }
+                            }
+                        }
+                    }
+                }
+            }
+        }
+    }
+    (out, judged_after_reput, judged_expiry_window)
+}
+
+/// A live key that went missing while a sweep of the very same entry overlapped the owner's
+/// in-place upsert is one specific history (finding D11); everything else keeps its class.
+fn race_signature(prop: &str, class: &str, race: &str) -> String {
+    if race != "race=none" && matches!(class, "lost-live-key" | "hidden-before-expiry") {
+        format!("{}/accepted-upsert-lost-to-concurrent-sweep/{}", prop, race)
+    } else {
+        format!("{}/{}/conc", prop, class)
+    }
+}
+
+pub fn c03_conc(sc: &Scenario, hx: &Hx, v: &mut Verdict) {
+    let (finds, reput, _) = owner_oracle(sc, hx, true);
+    for f in finds {
+        if matches!(f.class, "lost-live-key" | "altered-value" | "hidden-before-expiry") {
+            v.fail("C03", race_signature("C03", f.class, f.race), f.msg, f.event);
+        }
+    }
+    // at the end no owned live key is missing (final agreement reads are taken at quiescence)
+    let swept = hx.hooks.iter().any(|h| matches!(h.2, Hook::SweepBegin { .. }));
+    if reput {
+        v.probes.push("read_judged_after_reput_of_same_key");
+    }
+    if swept {
+        v.probes.push("sweep_executed");
+    }
+    v.nontrivial = reput && swept;
+}
+
+pub fn c09_conc(sc: &Scenario, hx: &Hx, v: &mut Verdict, fits: bool) {
+    let (finds, _, window) = owner_oracle(sc, hx, fits);
+    for f in finds {
+        if matches!(f.class, "served-after-expiry" | "hidden-before-expiry") {
+            v.fail("C09", race_signature("C09", f.class, f.race), f.msg, f.event);
+        }
+    }
+    if window {
+        v.probes.push("read_judged_against_expiry_window");
+    }
+    v.nontrivial = window && !hx.advances.is_empty();
+}
+
+/// C10 (concurrent safety half): the sweeper only ever expires index entries that are due, from the
+/// shard of its own tick time; and a key whose current TTL has not elapsed stays readable.
+pub fn c10_conc(sc: &Scenario, hx: &Hx, v: &mut Verdict) {
+    let shards = sc.cfg.shards as u64;
+    let mut cur: Option<(Dur, usize)> = None;
+    let mut expired_any = false;
+    for (s, _role, ev) in &hx.hooks {
+        match ev {
+            Hook::SweepBegin { now, shard } => {
+                cur = Some((*now, *shard));
+                if now.s % shards != *shard as u64 {
+                    v.fail("C10", "C10/wrong-shard-visited/conc".into(), format!("sweep at {}.{:09} visited shard {} of {}", now.s, now.n, shard, shards), *s);
+                }
+            }
+            Hook::SweepExpired { id, expiry } => {
+                expired_any = true;
+                if let Some((now, shard)) = cur {
+                    if !(now > *expiry) {
+                        v.fail(
+                            "C10",
+                            "C10/swept-not-due/conc".into(),
+                            format!("sweep at {}.{:09} expired id {} whose expiry {}.{:09} has not passed", now.s, now.n, id, expiry.s, expiry.n),
+                            *s,
+                        );
+                    }
+                    if expiry.s % shards != shard as u64 {
+                        v.fail("C10", "C10/entry-in-wrong-shard/conc".into(), format!("id {} with expiry second {} found in shard {}", id, expiry.s, shard), *s);
+                    }
+                }
+            }
+            _ => {}
+        }
+    }
+    let (finds, _, window) = owner_oracle(sc, hx, true);
+    for f in finds {
+        if matches!(f.class, "hidden-before-expiry" | "lost-live-key") {
+            let sig = if f.race == "race=none" { format!("C10/swept-live-key/{}", f.class) } else { race_signature("C10", f.class, f.race) };
+            v.fail("C10", sig, f.msg, f.event);
+        }
+    }
+    if expired_any {
+        v.probes.push("sweep_expired_an_entry");
+    }
+    v.nontrivial = expired_any && window;
+}
+
+/// C04 (concurrent half): once delete(k) returned (and it was acknowledged as accepted), no read
+/// invoked afterwards returns a value written definitely before the delete was invoked.
+pub fn c04_conc(_sc: &Scenario, hx: &Hx, v: &mut Verdict) {
+    let mut window_read = false;
+    for d in hx.writes.iter().filter(|w| w.is_delete()) {
+        let dret = match d.ret {
+            Some(r) => r,
+            None => continue,
+        };
+        if d.status() != Some(St::Accepted) {
+            continue;
+        }
+        for r in &hx.reads {
+            if r.inv <= dret {
+                continue;
+            }
+            for (pos, k) in r.keys.iter().enumerate() {
+                if *k != d.key {
+                    continue;
+                }
+                if d.apply_begin.map(|a| r.ret < a).unwrap_or(false) {
+                    window_read = true;
+                }
+                if let Some(val) = r.vals.get(pos).copied().flatten() {
+                    if let Some(wi) = hx.by_token.get(&val) {
+                        let w = &hx.writes[*wi];
+                        let w_done = w.done_seq().or(if w.upsert_in_place() { w.ret } else { None });
+                        if w_done.map(|x| x < d.inv).unwrap_or(false) {
+                            let ttl = matches!(&w.op, Op::Put { ttl: Some(_), .. } | Op::Upsert { ttl: Some(_), .. });
+                            v.fail(
+                                "C04",
+                                format!("C04/read-after-delete-returned/{}", if ttl { "ttl" } else { "no-ttl" }),
+                                format!(
+                                    "T{}#{} {:?}(k{}) returned {:x} ({}) although {} had returned before the read began",
+                                    r.t, r.i, r.kind, k, val, fmt_op(w), fmt_op(d)
+                                ),
+                                r.ret,
+                            );
+                        }
+                    }
+                }
+            }
+        }
+    }
+    if window_read {
+        v.probes.push("read_between_delete_return_and_worker_delete");
+    }
+    v.nontrivial = window_read;
+}
+
+/// C05 / C16 at quiescence: accounting and statistics identities over the final observation.
+pub fn quiescent_accounting(hx: &Hx, prop: &str, v: &mut Verdict) {
+    if hx.first_shutdown_inv().is_some() {
+        return;
+    }
+    let o = match hx.obs_named("pre") {
+        Some(o) => o,
+        None => return,
+    };
+    let racing = {
+        // two writes of one key in flight together
+        let mut r = false;
+        for (a_i, a) in hx.writes.iter().enumerate() {
+            for b in hx.writes.iter().skip(a_i + 1) {
+                if a.key == b.key && a.queued() && b.queued() {
+                    let a_end = a.acked.unwrap_or(u64::MAX);
+                    let b_end = b.acked.unwrap_or(u64::MAX);
+                    if a.inv < b_end && b.inv < a_end {
+                        r = true;
+                    }
+                }
+            }
+        }
+        r
+    };
+    if prop == "C05" {
+        let store_ids: std::collections::BTreeSet<u64> = o.store.iter().map(|s| s.1).collect();
+        let charged: std::collections::BTreeSet<u64> = o.weights.iter().map(|w| w.0).collect();
+        let orphan: Vec<&u64> = charged.difference(&store_ids).collect();
+        let uncharged: Vec<&u64> = store_ids.difference(&charged).collect();
+        let pair = racing_pair(hx);
+        if !orphan.is_empty() {
+            v.fail(
+                "C05",
+                format!("C05/orphan-charged-id/conc,{}", pair),
+                format!("at quiescence ids {:?} are charged ({:?}) but no store entry carries them; store {:?}", orphan, o.weights, o.store),
+                hx.len,
+            );
+        }
+        if !uncharged.is_empty() {
+            v.fail(
+                "C05",
+                format!("C05/uncharged-entry/conc,{}", pair),
+                format!("at quiescence store entries with ids {:?} are not charged; store {:?} weights {:?}", uncharged, o.store, o.weights),
+                hx.len,
+            );
+        }
+        let sum: i64 = o.weights.iter().map(|w| w.3).sum();
+        if sum != o.weight_used {
+            v.fail(
+                "C05",
+                format!("C05/sum-mismatch/conc,{}", pair),
+                format!("at quiescence total_weight_used() = {} but the charged weights sum to {}", o.weight_used, sum),
+                hx.len,
+            );
+        }
+        if racing {
+            v.probes.push("two_writes_of_one_key_in_flight_together");
+        }
+        v.nontrivial = racing;
+    }
+    if prop == "C16" {
+        c16_identities(hx, o, v);
+    }
+}
+
+fn racing_pair(hx: &Hx) -> &'static str {
+    // coarse context: which kinds of same-key writes overlapped
+    let mut pp = false;
+    let mut pu = false;
+    let mut dp = false;
+    for (a_i, a) in hx.writes.iter().enumerate() {
+        for b in hx.writes.iter().skip(a_i + 1) {
+            if a.key != b.key {
+                continue;
+            }
+            let a_end = a.acked.or(a.ret).unwrap_or(u64::MAX);
+            let b_end = b.acked.or(b.ret).unwrap_or(u64::MAX);
+            if !(a.inv < b_end && b.inv < a_end) {
+                continue;
+            }
+            match (a.is_put(), b.is_put(), a.is_upsert(), b.is_upsert(), a.is_delete(), b.is_delete()) {
+                (true, true, ..) => pp = true,
+                (true, _, _, true, ..) | (_, true, true, ..) => pu = true,
+                (_, _, true, true, ..) => pu = true,
+                (true, _, _, _, _, true) | (_, true, _, _, true, _) => dp = true,
+                _ => {}
+            }
+        }
+    }
+    if pp {
+        "race=put-put"
+    } else if pu {
+        "race=put-upsert"
+    } else if dp {
+        "race=delete-put"
+    } else {
+        "race=none"
+    }
+}
+
+fn c16_identities(hx: &Hx, o: &Obs, v: &mut Verdict) {
+    let s = &o.stats;
+    // lookups issued before the "pre" observation: every key of every completed read op
+    let lookups: u64 = hx.reads.iter().map(|r| r.keys.len() as u64).sum();
+    let shape = if s.misses == 0 && s.hits > 0 {
+        "all-hit"
+    } else if s.hits == 0 {
+        "all-miss"
+    } else {
+        "mixed"
+    };
+    if s.hits + s.misses != lookups {
+        v.fail("C16", "C16/lookups/conc".into(), format!("hits {} + misses {} != {} lookups performed", s.hits, s.misses, lookups), hx.len);
+    }
+    if s.keys_added.wrapping_sub(s.keys_deleted) != o.store.len() as u64 {
+        v.fail(
+            "C16",
+            "C16/keys/conc".into(),
+            format!("KeysAdded {} - KeysDeleted {} != {} keys held", s.keys_added, s.keys_deleted, o.store.len()),
+            hx.len,
+        );
+    }
+    if s.weight_added.wrapping_sub(s.weight_removed) != o.weight_used as u64 {
+        v.fail(
+            "C16",
+            "C16/weight/conc".into(),
+            format!("WeightAdded {} - WeightRemoved {} != total weight used {}", s.weight_added, s.weight_removed, o.weight_used),
+            hx.len,
+        );
+    }
+    let refused = hx.writes.iter().filter(|w| matches!(w.apply_end, Some((_, St::RejNoSpace)) | Some((_, St::RejTooHeavy)))).count() as u64;
+    if s.keys_rejected != refused {
+        v.fail("C16", "C16/rejected/conc".into(), format!("KeysRejected {} != {} puts refused by admission", s.keys_rejected, refused), hx.len);
+    }
+    let exp_ratio = if lookups == 0 { 0 } else { ((s.hits as f64 / (s.hits + s.misses).max(1) as f64) * 1_000_000.0).round() as u64 };
+    if s.hit_ratio_ppm != exp_ratio {
+        v.fail(
+            "C16",
+            format!("C16/hit-ratio/workload={}", shape),
+            format!("hit_ratio = {} ppm with hits {} misses {}", s.hit_ratio_ppm, s.hits, s.misses),
+            hx.len,
+        );
+    }
+    if hx.hooks.iter().any(|h| matches!(h.2, Hook::Evicted { .. })) {
+        v.probes.push("eviction");
+    }
+    if hx.hooks.iter().any(|h| matches!(h.2, Hook::SweepExpired { .. })) {
+        v.probes.push("sweep_expired_an_entry");
+    }
+    v.nontrivial = lookups > 0 && s.keys_added > 0;
+}
+
+/// C11: queued writes are applied exactly once, one at a time, in submission order.
+pub fn c11(sc: &Scenario, hx: &Hx, chans: &[crate::exec::ChanStat], v: &mut Verdict) {
+    let qctx = format!("queue={}", sc.cfg.queue);
+    // one at a time: ApplyBegin / ApplyEnd alternate
+    let mut open: Option<(u64, AckId)> = None;
+    let mut begins: std::collections::HashMap<AckId, u32> = Default::default();
+    for (s, _r, ev) in &hx.hooks {
+        match ev {
+            Hook::ApplyBegin { ack, .. } => {
+                if let Some((s0, a0)) = open {
+                    if a0 != NOBODY || *ack != NOBODY {
+                        v.fail("C11", format!("C11/overlapped/{}", qctx), format!("command {:?} began at {} while {:?} (begun at {}) had not ended", ack, s, a0, s0), *s);
+                    }
+                }
+                open = Some((*s, *ack));
+                if *ack != NOBODY {
+                    *begins.entry(*ack).or_insert(0) += 1;
+                }
+            }
+            Hook::ApplyEnd { .. } => {
+                open = None;
+            }
+            _ => {}
+        }
+    }
+    for (ack, n) in &begins {
+        if *n > 1 {
+            v.fail("C11", format!("C11/applied-twice/{}", qctx), format!("the command of T{}#{} was applied {} times", ack.0, ack.1, n), hx.len);
+        }
+    }
+    let completed = hx.phase_seq("quiescent").is_some();
+    let shutdown = hx.first_shutdown_inv().is_some();
+    for w in &hx.writes {
+        if w.ok && completed && !shutdown {
+            // an accepted call either was answered on the spot or was applied exactly once
+            let immediate = w.apply_begin.is_none() && w.drained.is_none();
+            if immediate {
+                let on_the_spot = matches!(w.status(), Some(St::RejExists)) || (w.is_upsert() && w.status() == Some(St::Accepted));
+                if !on_the_spot {
+                    v.fail("C11", format!("C11/never-applied/{}", qctx), format!("{} was acknowledged {:?} but the worker never applied it", fmt_op(w), w.status()), hx.len);
+                }
+            }
+        }
+    }
+    // per-thread and cross-thread order of application
+    let mut queued: Vec<&WriteRec> = hx.writes.iter().filter(|w| w.apply_begin.is_some()).collect();
+    queued.sort_by_key(|w| w.apply_begin.unwrap());
+    for (i, a) in queued.iter().enumerate() {
+        for b in queued.iter().skip(i + 1) {
+            // b applied after a: violation if b's call had returned before a's began
+            if let Some(bret) = b.ret {
+                if bret < a.inv {
+                    let class = if a.t == b.t { "per-thread-reorder" } else { "cross-thread-reorder" };
+                    v.fail(
+                        "C11",
+                        format!("C11/{}/{}", class, qctx),
+                        format!("{} returned before {} was invoked, yet it was applied later", fmt_op(b), fmt_op(a)),
+                        b.apply_begin.unwrap(),
+                    );
+                }
+            }
+        }
+    }
+    // acknowledgement order seen through the API alone
+    for (s, t, acks) in &hx.resolved {
+        // acks are listed last-to-first; once a queued one is resolved every earlier queued one is
+        let mut seen_resolved: Option<AckId> = None;
+        for (id, resolved) in acks {
+            let qd = hx.widx.get(id).map(|ix| hx.writes[*ix].queued()).unwrap_or(false);
+            if !qd {
+                continue;
+            }
+            if *resolved {
+                if seen_resolved.is_none() {
+                    seen_resolved = Some(*id);
+                }
+            } else if let Some(later) = seen_resolved {
+                v.fail(
+                    "C11",
+                    format!("C11/ack-order/{}", qctx),
+                    format!("thread {}: the acknowledgement of #{} had resolved while the earlier queued #{} had not", t, later.1, id.1),
+                    *s,
+                );
+            }
+        }
+    }
+    // put(k) then delete(k) without awaiting, by the only writer of k: k is absent in the end
+    if completed && !shutdown {
+        for k in 0..sc.cfg.keys {
+            let ws: Vec<&WriteRec> = hx.writes_of_key(k).collect();
+            if ws.len() >= 2 && ws.iter().all(|w| w.t == ws[0].t) {
+                let last = ws[ws.len() - 1];
+                let before = ws[ws.len() - 2];
+                if last.is_delete() && before.is_put() && last.queued() && before.queued() {
+                    if let Some((_, _, Some(val))) = hx.final_reads.iter().find(|f| f.1 == k && f.2.is_some()) {
+                        v.fail(
+                            "C11",
+                            format!("C11/put-delete-left-present/{}", qctx),
+                            format!("k{}: {} followed by {} yet the key still reads {:x} at quiescence", k, fmt_op(before), fmt_op(last), val),
+                            hx.len,
+                        );
+                    }
+                }
+            }
+        }
+    }
+    let blocked = chans.iter().any(|c| c.role == "worker" && c.send_blocked > 0);
+    let deep = chans.iter().any(|c| c.role == "worker" && c.max_queued >= 3) || (sc.cfg.queue < 3 && blocked);
+    if blocked {
+        v.probes.push("send_blocked_on_full_command_queue");
+    }
+    if chans.iter().any(|c| c.role == "worker" && c.max_queued >= 3) {
+        v.probes.push("three_or_more_commands_queued_together");
+    }
+    v.nontrivial = blocked && deep;
+}
+
+/// C15: conservation of access records and non-blocking reads.
+pub fn c15(sc: &Scenario, hx: &Hx, rec: &crate::sched::SchedRecord, chans: &[crate::exec::ChanStat], v: &mut Verdict) {
+    let ctx = format!("pool={},buffer={}", sc.cfg.pool, sc.cfg.buffer);
+    let stalled_whole_run = sc.sched.stalls.iter().any(|s| s.role == RoleName::Consumer && s.from == 0 && s.until == u64::MAX);
+    if stalled_whole_run {
+        if let Some(n) = rec.forced_breaks.get("consumer") {
+            if *n > 0 {
+                v.fail(
+                    "C15",
+                    format!("C15/read-waited-for-consumer/{}", ctx),
+                    format!("with the consumer withheld for the whole run, {} time(s) nothing but the consumer could run while callers were unfinished", n),
+                    hx.len,
+                );
+            }
+        }
+        v.probes.push("consumer_withheld_for_whole_run");
+    }
+    if hx.first_shutdown_inv().is_none() {
+        if let Some(o) = hx.obs_named("post") {
+            let buffered: u64 = o.buffered.iter().map(|b| b.len() as u64).sum();
+            let s = &o.stats;
+            if s.hits != buffered + s.access_added + s.access_dropped {
+                let class = if s.hits > buffered + s.access_added + s.access_dropped { "unaccounted" } else { "double-counted" };
+                v.fail(
+                    "C15",
+                    format!("C15/{}/{}", class, ctx),
+                    format!("at quiescence CacheHits {} != buffered {} + AccessAdded {} + AccessDropped {}", s.hits, buffered, s.access_added, s.access_dropped),
+                    hx.len,
+                );
+            }
+            let applied: u64 = hx.hooks.iter().map(|h| if let Hook::BatchApplied { hashes } = &h.2 { hashes.len() as u64 } else { 0 }).sum();
+            if applied != s.access_added {
+                v.fail(
+                    "C15",
+                    format!("C15/applied-vs-added/{}", ctx),
+                    format!("the consumer applied {} accesses but AccessAdded = {}", applied, s.access_added),
+                    hx.len,
+                );
+            }
+            // every applied or still-buffered hash belongs to a hit that happened (multiset inclusion)
+            let mut hits: std::collections::HashMap<u64, i64> = Default::default();
+            for r in &hx.reads {
+                for (pos, k) in r.keys.iter().enumerate() {
+                    if r.vals.get(pos).copied().flatten().is_some() {
+                        *hits.entry(sc.cfg.hash_of(*k)).or_insert(0) += 1;
+                    }
+                }
+            }
+            for (_, k, val) in &hx.final_reads {
+                if val.is_some() {
+                    *hits.entry(sc.cfg.hash_of(*k)).or_insert(0) += 1;
+                }
+            }
+            for h in hx.hooks.iter().flat_map(|h| if let Hook::BatchApplied { hashes } = &h.2 { hashes.clone() } else { vec![] }).chain(o.buffered.iter().flatten().copied()) {
+                let e = hits.entry(h).or_insert(0);
+                *e -= 1;
+                if *e < 0 {
+                    v.fail(
+                        "C15",
+                        format!("C15/double-counted/{}", ctx),
+                        format!("access record for hash {} delivered or buffered more often than the key was hit", h),
+                        hx.len,
+                    );
+                    break;
+                }
+            }
+        }
+    }
+    let dropped = chans.iter().any(|c| c.role == "consumer" && c.try_send_full > 0);
+    if dropped {
+        v.probes.push("drop_path_taken");
+    }
+    v.nontrivial = dropped;
+}
